@@ -68,6 +68,7 @@ type fnEnc struct {
 	iterPos   map[ssa.Value]string // Range value -> heap key name of its position
 	decAtHead map[*ssa.BasicBlock][]string
 	defs      map[string]string
+	callOrd   map[string]int
 }
 
 type retInfo struct {
@@ -401,7 +402,7 @@ func (e *fnEnc) havoc(keyName string) {
 func (e *fnEnc) havocSummary(s *Summary, all bool) {
 	if all || (s != nil && s.All) {
 		for _, k := range e.vc.sortedKeyNames() {
-			if strings.HasPrefix(k, "ITER!") {
+			if strings.HasPrefix(k, "ITER!") || k == "CLOCK" {
 				continue
 			}
 			e.havoc(k)
@@ -517,7 +518,28 @@ func (e *fnEnc) storePtr(r string, T types.Type, v string) {
 
 // typeFacts returns the invariants every Go value of type t satisfies.
 func (e *fnEnc) typeFacts(t string, T types.Type, depth int) string {
-	return typeFacts(e.S(), t, T, depth)
+	return sAnd(typeFacts(e.S(), t, T, depth), e.clockFacts(t, T, depth))
+}
+
+// clockFacts: every reference held by an existing value was allocated before "now".
+func (e *fnEnc) clockFacts(t string, T types.Type, depth int) string {
+	switch u := T.Underlying().(type) {
+	case *types.Pointer, *types.Map, *types.Chan:
+		return fmt.Sprintf("(<= %s %s)", t, e.heap(clockKey))
+	case *types.Slice:
+		return fmt.Sprintf("(<= (c-ref %s) %s)", t, e.heap(clockKey))
+	case *types.Struct:
+		if depth <= 0 {
+			return "true"
+		}
+		name := e.S().SortOf(T)
+		var fs []string
+		for i := 0; i < u.NumFields(); i++ {
+			fs = append(fs, e.clockFacts(fmt.Sprintf("(%s %s)", e.S().fieldSel(name, u.Field(i).Name(), i), t), u.Field(i).Type(), depth-1))
+		}
+		return sAnd(fs...)
+	}
+	return "true"
 }
 
 func typeFacts(S *Sorts, t string, T types.Type, depth int) string {
